@@ -8,6 +8,7 @@ import (
 	"fmt"
 	"os"
 	"runtime"
+	"runtime/debug"
 	"runtime/pprof"
 	"sync"
 
@@ -81,6 +82,11 @@ func main() {
 	worker := flag.String("worker", "", "internal: worker mode (sml|hsms)")
 	flag.Parse()
 
+	// plenty of memory, allocation-heavy code under test: trade heap for GC time
+	// (not in worker mode, where allocation is what is being measured against a limit)
+	if *worker == "" {
+		debug.SetGCPercent(400)
+	}
 	if *worker != "" {
 		workerMain(*worker, flag.Args())
 		return
